@@ -34,6 +34,10 @@ no proposal flags). -/
 theorem path_is_stateless_and_fork_independent :
     C15Facts.pathGlobals = expectedPathGlobals ∧ C15Facts.pathForkReads = [] := by decide
 
+/-- `loadOrNewSignParty` parks a verify message that has no party yet by appending it to the list under
+its key: the parked store is a multiset per key, exactly `Life.pfuture` / `Proc.stray` of the model. -/
+theorem loadParty_shape : C15Facts.loadPartySteps = expectedLoadPartySteps := by decide
+
 /-- `SignInfo.VerifySign` = signer id non-zero ∧ `VerifySig(pk, dataHash, signature)`. -/
 theorem verifySign_shape : C15Facts.verifySignSteps = expectedVerifySignSteps := by decide
 
